@@ -607,6 +607,31 @@ func iterPartition(c *core.Ctx, s *Stage, g *Goroutine, h *ssa.BasicBlock) {
 		return
 	}
 	for _, f := range elem {
+		if len(f.applies) == 1 && f.done {
+			// cancelled while offering the element: it must have been offered on the output its predicate selects
+			cond := predCond(f)
+			want := rout
+			if cond > 0 {
+				want = lout
+			}
+			for _, st := range f.p.Events(ir.KSelect) {
+				d := doneArm(st)
+				if d < 0 || st.Chosen != d || !st.Blocking {
+					continue
+				}
+				offered := false
+				for ai, a := range st.Arms {
+					if ai != d && a.Send && cond != 0 && ir.Same(a.Chan, want) && ir.Same(a.Val, f.elem) {
+						offered = true
+					}
+				}
+				if !offered {
+					ok = false
+					c.Fail("iteration", s.Name, st.Pos(), "an element is offered on no output (or on the wrong one) while the stage waits for cancellation (cond=%d): it is never delivered", cond)
+				}
+			}
+			continue
+		}
 		if len(f.applies) != 1 || f.done {
 			continue
 		}
